@@ -1,5 +1,5 @@
 (* C03 — numeric comparisons agree with the mathematical order. *)
-From Rules Require Import Spec Eval Refinement OpsProps ValuesProps LeafTheorems.
+From Rules Require Import Spec Eval Refinement OpsProps ValuesProps FloatProofs LeafTheorems.
 From Coq Require Import QArith.
 
 (* integer attribute (int, int32, int64) against an integer literal: the order of Z *)
@@ -36,6 +36,15 @@ Theorem C03_int_dec :
     process_tree lower (QCompare p op (VDouble t)) top = mkOut (rel_holds op (f64_compare (f64_of_Z z) d)) ErrNone None.
 Proof. exact c03_int_dec. Qed.
 Print Assumptions C03_int_dec.
+
+(* ... and for |z| <= 2^53 that conversion is exact: the order of the rationals *)
+Theorem C03_int_dec_exact :
+  forall lower top p op t z m' e',
+    p <> [] -> denote top p = Ok (GInt z) -> (Z.abs z <= two53)%Z -> parse_float t = PFVal (FFin m' e') -> is_rel op ->
+    process_tree lower (QCompare p op (VDouble t)) top
+    = mkOut (rel_holds op (Some (Qcompare (inject_Z z) (Qval m' e')))) ErrNone None.
+Proof. exact c03_int_dec_exact. Qed.
+Print Assumptions C03_int_dec_exact.
 
 Theorem C03_nan :
   forall lower top p op v (t : f64) r,
